@@ -512,7 +512,8 @@ def s_ham(draw, tier, Lmax=6, pc=50, shift=False, Lmin=3, Lmax3=5):
     flavor = draw(st.sampled_from(REAL_FLAVORS if want == "real" else CPLX_FLAVORS))
     S2 = draw(st.sampled_from([1, 1, 1, 2]))
     d = S2 + 1
-    L = draw(st.integers(Lmin, Lmax if d == 2 else min(Lmax, Lmax3)))
+    hi = Lmax if d == 2 else min(Lmax, Lmax3)
+    L = draw(st.sampled_from([l for l in (3, 4, 4, 5, 5, 6, 6, 7, 8) if Lmin <= l <= hi]))
     if flavor.startswith("herm_mpo"):
         return {"kind": "herm_mpo", "L": L, "d": d, "bond": draw(st.integers(1, 3)), "seed": draw(A.seeds),
                 "cplx": flavor.endswith("cplx"), "flavor": flavor}
@@ -620,7 +621,10 @@ def s_dmrg_generic(draw, tier, hd, bsz=None, coarse=True):
     return cfg
 
 
-def s_case_generic(tier, bsz=None, Lmax=6, pc=50, shift=False, coarse=True):
+def s_case_generic(tier, bsz=None, Lmax=None, pc=50, shift=False, coarse=True):
+    if Lmax is None:
+        Lmax = 6 if tier == "quick" else 8
+
     @st.composite
     def s(draw):
         hd = draw(s_ham(tier, Lmax=Lmax, pc=pc, shift=shift))
@@ -781,7 +785,7 @@ def s_dmrg_monotone(draw, tier, hd):
 def s_case_monotone(tier):
     @st.composite
     def s(draw):
-        hd = draw(s_ham(tier, Lmax=6))
+        hd = draw(s_ham(tier, Lmax=6 if tier == "quick" else 7))
         return {"ham": hd, "dmrg": draw(s_dmrg_monotone(tier, hd))}
 
     return s()
@@ -848,7 +852,7 @@ def s_dmrg_exact(draw, tier, hd):
 def s_case_exact(tier):
     @st.composite
     def s(draw):
-        hd = draw(s_ham(tier, Lmax=6, pc=35, Lmax3=4))
+        hd = draw(s_ham(tier, Lmax=6 if tier == "quick" else 7, pc=35, Lmax3=4))
         return {"ham": hd, "dmrg": draw(s_dmrg_exact(tier, hd))}
 
     return s()
@@ -944,20 +948,20 @@ SUBCHECKS = [
     SubCheck("ham_reference", run_ham_reference, s_ham_reference, examples=(150, 1500), shards=(1, 2),
              rule="ham.to_dense() == sum of embedded terms from own spin matrices (open + cyclic, overrides replace defaults); "
                   "nt: L>=4 and (complex or site-dependent)"),
-    SubCheck("energy_state_dmrg2", run_energy_state, _q(s_case_generic, bsz=2, pc=30), examples=(36, 350), shards=(2, 4),
+    SubCheck("energy_state_dmrg2", run_energy_state, _q(s_case_generic, bsz=2, pc=30), examples=(36, 110), shards=(2, 3),
              rule="two-site DMRG: after every solve() stage energy == <psi|H|psi>/<psi|psi> (dense) == psi.H@ham.apply(psi) within 1e-6||H||; "
                   "half the Hamiltonians genuinely complex; nt as RULE"),
-    SubCheck("energy_state_dmrg1", run_energy_state, _q(s_case_generic, bsz=1, pc=35), examples=(36, 350), shards=(2, 4),
+    SubCheck("energy_state_dmrg1", run_energy_state, _q(s_case_generic, bsz=1, pc=35), examples=(36, 110), shards=(2, 3),
              rule="one-site DMRG: same clause; nt as RULE"),
-    SubCheck("bounds_and_cap", run_bounds, _q(s_case_generic, shift=True), examples=(36, 350), shards=(2, 4),
+    SubCheck("bounds_and_cap", run_bounds, _q(s_case_generic, shift=True), examples=(36, 110), shards=(2, 3),
              rule="lambda_min-1e-8 <= every reported energy <= lambda_max+1e-8 (energy, energies, total_energies) and max_bond <= cap "
                   "after every stage; spectra shifted off zero so that an unnormalised <H> is visible; nt as RULE"),
-    SubCheck("monotone", run_monotone, s_case_monotone, examples=(36, 350), shards=(2, 4),
+    SubCheck("monotone", run_monotone, s_case_monotone, examples=(36, 110), shards=(2, 3),
              rule="total_energies never go up (down for LA) across untruncated updates (DMRG1 always; DMRG2 with cutoff 0.0 and cap >= d^(L/2)) "
                   "beyond 1e-9||H|| (dense local solve) / local_eig_tol (iterative); nt as RULE"),
-    SubCheck("exact_limit", run_exact, s_case_exact, examples=(36, 350), shards=(2, 4),
+    SubCheck("exact_limit", run_exact, s_case_exact, examples=(36, 110), shards=(2, 3),
              rule="cap >= d^(L/2), tiny cutoff, generic start, converged at 1e-9: |E-lambda|<=1e-6||H|| and ground-space weight >= 1-1e-6 "
                   "(when the gap above the ground space >= 1e-3||H||); nt as RULE and converged"),
-    SubCheck("periodic", run_periodic, s_case_periodic, examples=(10, 120), shards=(2, 4),
+    SubCheck("periodic", run_periodic, s_case_periodic, examples=(10, 40), shards=(2, 2),
              rule="cyclic Heisenberg-like chains L 4-6: energy == normalised <psi|H|psi> within 1e-3||H||; nt: all"),
 ]
